@@ -90,6 +90,48 @@ fn check_derivation(spec: &GrammarSpec, d: &Dump, n: &Node) -> Result<(), (Strin
     Ok(())
 }
 
+/// The validity predicate of C02 for one Ok(tree): (signature class, message) on failure.
+#[allow(clippy::too_many_arguments)]
+fn validate_tree(
+    spec: &GrammarSpec,
+    d: &Dump,
+    t: &Node,
+    partial: bool,
+    inp: &str,
+    toks: &[usize],
+    spans: &[(usize, usize)],
+) -> Result<(), (String, String)> {
+    let start_name = &spec.rules[0].name;
+    if node_sym(d, t) != start_name || matches!(t, Node::Term { .. }) {
+        return Err(("root-not-start".into(), String::new()));
+    }
+    check_derivation(spec, d, t)?;
+    let mut leaves = vec![];
+    t.leaves(&mut leaves);
+    if !partial && leaves.len() != toks.len() {
+        return Err(("leaves-count".into(), format!("{} leaves for {} tokens", leaves.len(), toks.len())));
+    }
+    if leaves.len() > toks.len() {
+        return Err(("leaves-invented".into(), String::new()));
+    }
+    for (k, l) in leaves.iter().enumerate() {
+        if let Node::Term { kind, span, text: ttext, .. } = l {
+            let want = &spec.terms[toks[k]];
+            let wspan = spans[k];
+            if d.terminals[*kind].name != want.name || ttext != &inp[wspan.0..wspan.1] || (span.start.pos, span.end.pos) != wspan {
+                return Err((
+                    "leaf-mismatch".into(),
+                    format!(
+                        "leaf {k}: {}({ttext:?})@{}-{} but token {k} of the input is {}({:?})@{}-{}",
+                        d.terminals[*kind].name, span.start.pos, span.end.pos, want.name, &inp[wspan.0..wspan.1], wspan.0, wspan.1
+                    ),
+                ));
+            }
+        }
+    }
+    Ok(())
+}
+
 impl Prop for C02 {
     type Case = Case;
     fn id(&self) -> &'static str {
@@ -179,11 +221,13 @@ impl Prop for C02 {
         if install(&d, &cfg).is_err() {
             return Outcome::Pass;
         }
-        let start_name = &spec.rules[0].name;
+        // (input, tokens, spans) of the inputs parsed below, for the parser-reuse pass
+        let mut session: Vec<(String, Vec<usize>, Vec<(usize, usize)>)> = vec![];
         for ii in 0..case.g.tapes.len() {
             let (r, toks) = render(case, &bnf, ii);
             let inp = &r.text;
             st.sub();
+            session.push((r.text.clone(), toks.clone(), r.spans.clone()));
             let mut results = vec![];
             for partial in [false, true] {
                 dynp::reset_steps(LR_STEPS);
@@ -211,42 +255,11 @@ impl Prop for C02 {
                 };
                 if let Ok(t) = &res {
                     let mode = if partial { "partial-on" } else { "partial-off" };
-                    if node_sym(&d, t) != start_name || matches!(t, Node::Term { .. }) {
-                        return Outcome::fail(format!("root-not-start|{mode}"), format!("{}\ntree: {}", ctx(), canon_real(&d, t, true)));
-                    }
-                    if let Err((cls, msg)) = check_derivation(&spec, &d, t) {
+                    if let Err((cls, msg)) = validate_tree(&spec, &d, t, partial, inp, &toks, &r.spans) {
                         return Outcome::fail(format!("{cls}|{mode}"), format!("{}\n{msg}\ntree: {}", ctx(), canon_real(&d, t, true)));
                     }
                     let mut leaves = vec![];
                     t.leaves(&mut leaves);
-                    if !partial && leaves.len() != toks.len() {
-                        return Outcome::fail(
-                            format!("leaves-count|{mode}"),
-                            format!("{}\n{} leaves for {} tokens\ntree: {}", ctx(), leaves.len(), toks.len(), canon_real(&d, t, true)),
-                        );
-                    }
-                    if leaves.len() > toks.len() {
-                        return Outcome::fail(format!("leaves-invented|{mode}"), format!("{}\ntree: {}", ctx(), canon_real(&d, t, true)));
-                    }
-                    for (k, l) in leaves.iter().enumerate() {
-                        if let Node::Term { kind, span, text: ttext, .. } = l {
-                            let want = &spec.terms[toks[k]];
-                            let wspan = r.spans[k];
-                            if d.terminals[*kind].name != want.name
-                                || ttext != &inp[wspan.0..wspan.1]
-                                || (span.start.pos, span.end.pos) != wspan
-                            {
-                                return Outcome::fail(
-                                    format!("leaf-mismatch|{mode}"),
-                                    format!(
-                                        "{}\nleaf {k}: {}({ttext:?})@{}-{} but token {k} of the input is {}({:?})@{}-{}",
-                                        ctx(), d.terminals[*kind].name, span.start.pos, span.end.pos,
-                                        want.name, &inp[wspan.0..wspan.1], wspan.0, wspan.1
-                                    ),
-                                );
-                            }
-                        }
-                    }
                     if resolved && t.interior_count() >= 2 {
                         st.nontrivial(&format!("{text}\n{:?}\n{inp}\n{partial}", (case.ps, case.pse, case.pager)), || {
                             json!({"grammar": text, "prefer_shifts": case.ps, "prefer_shifts_over_empty": case.pse,
@@ -275,6 +288,41 @@ impl Prop for C02 {
                         return Outcome::fail("metamorphic|partial-on-rejects", format!("{ctx}\n{}", e.message))
                     }
                     None => {}
+                }
+            }
+        }
+        // one parser instance for the whole sequence of inputs (valid and invalid interleaved),
+        // as a user who keeps a parser around does: every Ok must still be a derivation of ITS input
+        for partial in [false, true] {
+            let texts: Vec<&str> = session.iter().map(|x| x.0.as_str()).collect();
+            let items = dynp::lr_parse_session(&texts, RunOpts { partial, skip_ws: true }, LR_STEPS);
+            let mut seen_err = false;
+            for (k, item) in items.iter().enumerate() {
+                st.sub();
+                let (inp, toks, spans) = &session[k];
+                let ctx = || {
+                    format!(
+                        "grammar:\n{text}\nsettings: prefer_shifts={} prefer_shifts_over_empty={} table={} partial={partial}\none parser instance parsed, in order: {:?}\ninput #{k}: {inp:?}",
+                        case.ps, case.pse, tt.name(), &texts[..=k]
+                    )
+                };
+                match item {
+                    Err(p) => match parse_panic(&format!("reused-parser|parse|partial={partial}"), p, st) {
+                        Some(o) => return o,
+                        None => break,
+                    },
+                    Ok(Err(_)) => seen_err = true,
+                    Ok(Ok(t)) => {
+                        if let Err((cls, msg)) = validate_tree(&spec, &d, t, partial, inp, toks, spans) {
+                            return Outcome::fail(
+                                format!("reused-parser|{cls}|{}", if partial { "partial-on" } else { "partial-off" }),
+                                format!("{}\n{msg}\ntree: {}", ctx(), canon_real(&d, t, true)),
+                            );
+                        }
+                        if seen_err {
+                            st.class("reused-parser-ok-after-err");
+                        }
+                    }
                 }
             }
         }
